@@ -388,9 +388,9 @@ EDIF_SCOPES = """(edif scopes
           (instance u_sub (viewRef netlist (cellRef sub)))
           (instance u_buf (viewRef netlist (cellRef BUF2 (libraryRef prims))))
           (instance u_sub2 (viewRef netlist (cellRef sub (libraryRef work))))
-          (net a (joined (portRef a) (portRef a (instanceRef u_sub))))
-          (net m (joined (portRef y (instanceRef u_sub)) (portRef I (instanceRef u_buf))))
-          (net d (joined (portRef t) (portRef (member D 1) (instanceRef u_buf))))
+          (net (rename n_a "sig a") (joined (portRef a) (portRef a (instanceRef u_sub))))
+          (net (rename n_m "sig m") (joined (portRef y (instanceRef u_sub)) (portRef I (instanceRef u_buf))))
+          (net (rename d_0_ "d[0]") (joined (portRef t) (portRef (member D 1) (instanceRef u_buf))))
           (net y (joined (portRef y) (portRef O (instanceRef u_buf))))))))
   (design top (cellRef top (libraryRef work))))
 """
@@ -610,6 +610,31 @@ class random_stub:
         return l[0]
 
 
+def edif_dup_sites(t, sp):
+    """declarations of nets / ports / instances / cells paired with the previous declaration of the same
+    kind in the same scope: (first token, last token of this nameDef, kind, previous identifier, previous name)"""
+    tok = [t[a:b] for a, b in sp]
+    where, _ = edif_scopes(t, sp)
+    last = {}
+    out = []
+    for j in range(2, len(tok)):
+        if tok[j - 2] != "(" or tok[j - 1].lower() not in ("net", "port", "instance", "cell"):
+            continue
+        kind = tok[j - 1].lower()
+        if tok[j] == "(" and j + 4 < len(tok) and tok[j + 1].lower() == "rename" and tok[j + 4] == ")":
+            ident, name, end = tok[j + 2], tok[j + 3].strip('"'), j + 4
+        elif tok[j] not in "()":
+            ident, name, end = tok[j], tok[j], j
+        else:
+            continue
+        scope = (kind, where[j][0], where[j][1] if kind != "cell" else None)
+        if scope in last:
+            pi, pn = last[scope]
+            out.append((j, end, kind, pi, pn))
+        last[scope] = (ident, name)
+    return out
+
+
 def corruptions(rec, rng=None, sample=None, n_replace=None):
     """All single corruptions of a text record.  `n_replace`: how many of the junk replacements per
     token (None = all); `sample`: keep a seeded, class-balanced sample of about that size.  Entries with
@@ -657,6 +682,12 @@ def corruptions(rec, rng=None, sample=None, n_replace=None):
             if cur.swapcase() != cur:
                 # EDIF identifiers are case-insensitive: still the same reference
                 out.append({"kind": "recase", "pos": i, "ref": sites[i], "with": cur.swapcase(), "must": full, "one_policy": True})
+        for (a, b, kind, pi, pn) in edif_dup_sites(t, sp):
+            # the NAME of the previous sibling under a fresh identifier / its identifier under a fresh name
+            out.append({"kind": "dupname", "pos": a, "end": b, "decl": kind, "with": '(rename zz_fresh_id "%s")' % pn,
+                        "must": full, "one_policy": True})
+            out.append({"kind": "dupid", "pos": a, "end": b, "decl": kind, "with": '(rename %s "zz fresh name")' % pi,
+                        "must": full, "one_policy": True})
         for c in edif_rescope(t, sp, sites, rng):
             c["must"] = full
             c["one_policy"] = True
@@ -701,6 +732,8 @@ def apply(rec, c):
         return t[:a] + t[b:]
     if k == "duplicate":
         return t[:b] + " " + t[a:b] + t[b:]
+    if k in ("dupname", "dupid"):
+        return t[:a] + c["with"] + t[sp[c["end"]][1]:]
     if k == "lexstate":
         if c["mode"] == "cut_inside":
             return t[:a] + c["with"]
